@@ -43,12 +43,13 @@ theorem record_new (r : S_billstat_RuntimeRecorder) (id ctry : String) (asn prot
   simp [Recorder_Record, showRec]
 
 /-- A device that already has a record: the shared record is updated in place — count plus one,
-country, ASN, protocol (and time: `start`) overwritten by those of this query — and nothing is
-stored into the map. -/
+country, ASN, protocol overwritten by those of this query — and the only other effect is one store of
+`start` (into the abstract `Time` field; `lbl` is its source text): nothing is stored into the map. -/
 theorem record_existing (r : S_billstat_RuntimeRecorder) (id ctry : String) (asn proto : Int) (p : S_billstat_Record) :
-    Recorder_Record r id ctry asn proto (some p) =
-      some (some ⟨ctry, asn, p.Queries + 1, proto⟩, [("set rec.Time", ["start"])]) := by
-  simp [Recorder_Record]
+    ∃ lbl, Recorder_Record r id ctry asn proto (some p) =
+      some (some ⟨ctry, asn, p.Queries + 1, proto⟩, [(lbl, ["start"])]) := by
+  unfold Recorder_Record
+  exact ⟨_, rfl⟩
 
 theorem record_never_panics (r : S_billstat_RuntimeRecorder) (id ctry : String) (asn proto : Int)
     (e : Option S_billstat_Record) : Recorder_Record r id ctry asn proto e ≠ none := by
@@ -58,9 +59,10 @@ theorem record_never_panics (r : S_billstat_RuntimeRecorder) (id ctry : String) 
 theorem record_tr_existing (cn : String → Nat) (t : Recs) (d : Dev) (r : S_billstat_RuntimeRecorder)
     (id ctry : String) (asn proto time0 start : Int) (p : S_billstat_Record)
     (h : t d = some (absRec cn time0 p)) (hq : 0 ≤ p.Queries) :
-    ∃ p', Recorder_Record r id ctry asn proto (some p) = some (some p', [("set rec.Time", ["start"])]) ∧
+    ∃ p' lbl, Recorder_Record r id ctry asn proto (some p) = some (some p', [(lbl, ["start"])]) ∧
       record t d ⟨start, cn ctry, asn.toNat, proto.toNat⟩ d = some (absRec cn start p') := by
-  refine ⟨_, record_existing r id ctry asn proto p, ?_⟩
+  obtain ⟨lbl, hl⟩ := record_existing r id ctry asn proto p
+  refine ⟨_, lbl, hl, ?_⟩
   simp only [record, h, put, absRec, if_true]
   congr 2
   omega
@@ -74,8 +76,8 @@ theorem record_tr_new (cn : String → Nat) (t : Recs) (d : Dev) (r : S_billstat
   refine ⟨_, record_new r id ctry asn proto, ?_⟩
   simp [record, h, put, absRec]
 
-example : Recorder_Record ⟨⟩ "dev1" "NL" 64500 3 (some ⟨"DE", 1, 41, 1⟩) =
-    some (some ⟨"NL", 64500, 42, 3⟩, [("set rec.Time", ["start"])]) := by
+example : (Recorder_Record ⟨⟩ "dev1" "NL" 64500 3 (some ⟨"DE", 1, 41, 1⟩)).map (·.1) =
+    some (some ⟨"NL", 64500, 42, 3⟩) := by
   simp [Recorder_Record]
 
 /-! ## One iteration of `remergeRecords` (the per-device rule; the loop runs over a map) -/
